@@ -879,12 +879,13 @@ func c16Field(r *rand.Rand, sep string) string {
 
 var c16Bad = []string{"a\"b", "\"open", "\"x\"y", "\"", "a\"", "\"a\"\"", " \"sp\"", "\"q\" "}
 
-func c16Text(r *rand.Rand, sep string) string {
+func c16Text(r *rand.Rand, sep string, forceRagged bool) string {
 	var sb strings.Builder
 	nrows := r.Intn(7)
 	width := 1 + r.Intn(4)
-	ragged := r.Intn(4) == 0
+	ragged := r.Intn(8) == 0 // ragged rows are an error unless FieldsPerRecord < 0
 	crlf := r.Intn(5) == 0
+	ragged = ragged || forceRagged
 	for i := 0; i < nrows; i++ {
 		switch r.Intn(14) {
 		case 0:
@@ -902,10 +903,11 @@ func c16Text(r *rand.Rand, sep string) string {
 			if j > 0 {
 				sb.WriteString(sep)
 			}
-			if r.Intn(4) == 0 {
-				sb.WriteString(" ")
+			f := c16Field(r, sep)
+			if r.Intn(4) == 0 && (!strings.HasPrefix(f, "\"") || r.Intn(8) == 0) {
+				sb.WriteString(" ") // a blank before a quoted field is malformed unless LazyQuotes/TrimLeadingSpace
 			}
-			sb.WriteString(c16Field(r, sep))
+			sb.WriteString(f)
 		}
 		if i == nrows-1 && r.Intn(3) == 0 {
 			break // no newline at the end of the text
@@ -929,7 +931,7 @@ func c16BadText(r *rand.Rand, sep string) string {
 		}
 		return string(b)
 	}
-	t := c16Text(r, sep)
+	t := c16Text(r, sep, false)
 	lines := strings.SplitAfter(t, "\n")
 	at := r.Intn(len(lines) + 1)
 	bad := c16Bad[r.Intn(len(c16Bad))] + sep + "z\n"
@@ -953,7 +955,7 @@ func c16GenOpts(r *rand.Rand) (c16Opts, string) {
 		}
 	}
 	if r.Intn(4) == 0 {
-		o.FPR = []int{-1, 1, 2, 3, 4}[r.Intn(5)]
+		o.FPR = []int{-1, -1, -1, 1, 2, 3, 4}[r.Intn(7)]
 	}
 	o.Lazy = r.Intn(4) == 0
 	o.Trim = r.Intn(4) == 0
@@ -974,8 +976,10 @@ func c16GenSkip(r *rand.Rand, o c16Opts, text string) int {
 		return 1 << 30
 	case 2, 3, 4, 5:
 		return 0
+	case 6, 7:
+		return n + r.Intn(3)
 	default:
-		return r.Intn(n + 3)
+		return r.Intn(n + 1)
 	}
 }
 
@@ -986,10 +990,10 @@ func (c16) Gen(r *rand.Rand, tier string, i int) any {
 		o, sep = c16GenOpts(r)
 	}
 	var text string
-	if r.Intn(5) == 0 {
+	if r.Intn(7) == 0 {
 		text = c16BadText(r, sep)
 	} else {
-		text = c16Text(r, sep)
+		text = c16Text(r, sep, o.FPR < 0 && r.Intn(2) == 0)
 	}
 	o.Skip = c16GenSkip(r, o, text)
 	in := c16In{Text: Bs(text), Opts: o}
